@@ -380,9 +380,18 @@ Definition port_check (f : fault) (port0 sendable : bool) (hs : list handler) (d
   let seen := filter (fun a => negb (is_dead a)) obs in
   let core := filter (fun a => negb (is_log a)) seen in
   let dead := if existsb is_dead obs then ["C09:port_stops_serving"%string] else [] in
-  if env_fault_effective f port0 sendable hs d then
-    dead ++ (if actions_eqb seen (expected_obs f port0 sendable hs d) then [] else ["C09:port_fault_reaction"%string])
-  else
-    (if existsb is_log obs then ["C09:internal_error_path"%string] else []) ++ dead ++
-    (if (2 <=? List.length core)%nat then ["C09:port_more_than_one_reaction"%string] else []) ++
-    (if actions_eqb core spec then [] else ["C09:port_reaction"%string]).
+  match f with
+  | Some (SLog, _) =>
+      (* WHERE a branch logs, and through which logger method, is not fixed by the property: under a fault in a
+         log statement the datagram is judged only by what the property says - the loop keeps serving, at most
+         one reaction, and if there is one it is the specified one (none is fine) *)
+      dead ++ (if (actions_eqb core [] || actions_eqb core spec) && (List.length seen <=? 3)%nat then []
+               else ["C09:port_fault_reaction"%string])
+  | _ =>
+      if env_fault_effective f port0 sendable hs d then
+        dead ++ (if actions_eqb seen (expected_obs f port0 sendable hs d) then [] else ["C09:port_fault_reaction"%string])
+      else
+        (if existsb is_log obs then ["C09:internal_error_path"%string] else []) ++ dead ++
+        (if (2 <=? List.length core)%nat then ["C09:port_more_than_one_reaction"%string] else []) ++
+        (if actions_eqb core spec then [] else ["C09:port_reaction"%string])
+  end.
